@@ -70,9 +70,14 @@ package minruntime
 //@   ensures result1 == nil
 //@ end
 
-//@ func (*minruntimePlugin).isPreemptMinRuntimeProtected
+// Cache hit path: the cache is a map with struct values (metav1.Duration), which the engine
+// over-approximates, so the functional post is stated for the miss path only (see report).
+//@ func (*resolver).getPreemptMinRuntime
 //@   props C06
-//@   requires mr != nil && victim != nil && mr.resolver != nil
-//@   modifies *
-//@   ensures victim.LastStartTimestamp == nil ==> result == false
+//@   requires r != nil && acyclic(r)
+//@   assume preemptMRdef(r)
+//@   modifies r.preemptMinRuntimeCache[*]
+//@   ensures [nilQueueDefault] queue == nil ==> result0.Duration == r.defaultPreemptMinRuntime.Duration && result1 != nil
+//@   ensures [resolved] queue != nil && !old(queue.UID in r.preemptMinRuntimeCache) ==> result0.Duration == preemptMR(r, queue) && result1 == nil
+//@   ensures queue != nil ==> result1 == nil
 //@ end
